@@ -9,6 +9,7 @@ import (
 	"fmt"
 	"sort"
 	"strings"
+	"time"
 
 	"github.com/hyperjumptech/grule-rule-engine/ast"
 	"github.com/hyperjumptech/grule-rule-engine/engine"
@@ -113,26 +114,26 @@ type EvalEv struct {
 }
 
 type CycleRec struct {
-	N        uint64
-	Key      string
-	Order    []string
-	NAlt     int
-	Choice   int
-	Evals    []EvalEv
-	Exec     string // "" none
-	NExec    int    // number of ExecuteRuleEntry callbacks in this cycle
-	ExecRef  bool   // reference value of the fired rule's condition at that moment
-	ExecRefE error
-	ExecActive bool // fired rule active in the model (not retracted, not removed)
-	Pre      *ref.World // snapshot at ExecuteRuleEntry
-	PostChecked bool
-	PostOK   bool
-	PostDiff string
-	ModelErr error       // model says an action of the fired rule fails
+	N                uint64
+	Key              string
+	Order            []string
+	NAlt             int
+	Choice           int
+	Evals            []EvalEv
+	Exec             string // "" none
+	NExec            int    // number of ExecuteRuleEntry callbacks in this cycle
+	ExecRef          bool   // reference value of the fired rule's condition at that moment
+	ExecRefE         error
+	ExecActive       bool       // fired rule active in the model (not retracted, not removed)
+	Pre              *ref.World // snapshot at ExecuteRuleEntry
+	PostChecked      bool
+	PostOK           bool
+	PostDiff         string
+	ModelErr         error // model says an action of the fired rule fails
 	ModelUnsupported bool
-	Effect   ref.Effect
-	ActiveModel []string // model-active rules at cycle start (sorted)
-	RefAt    map[string]RefRes // reference evaluation of every model-active rule on the state at cycle start
+	Effect           ref.Effect
+	ActiveModel      []string          // model-active rules at cycle start (sorted)
+	RefAt            map[string]RefRes // reference evaluation of every model-active rule on the state at cycle start
 }
 
 // RefRes is a reference evaluation result.
@@ -142,58 +143,61 @@ type RefRes struct {
 }
 
 type Trace struct {
-	Cycles   []*CycleRec
-	Err      error
-	Panic    interface{}
-	Events   []string
-	Protocol []string // listener protocol violations (numbering, duplicates, ...)
-	FinalDump string
-	FinalCands []string // reference candidates among model-active rules on the final state
-	FinalCandErr int     // rules whose final reference evaluation is an error
-	Completed bool       // model saw Complete()
-	Horizon  bool        // harness horizon hit (non-termination suspected)
-	Choices  []int       // order choice per hook call
-	NAlts    []int
-	HookCalls int
+	Cycles         []*CycleRec
+	Err            error
+	Panic          interface{}
+	Events         []string
+	Protocol       []string // listener protocol violations (numbering, duplicates, ...)
+	FinalDump      string
+	FinalCands     []string // reference candidates among model-active rules on the final state
+	FinalCandErr   int      // rules whose final reference evaluation is an error
+	Completed      bool     // model saw Complete()
+	Horizon        bool     // harness horizon hit (non-termination suspected)
+	Choices        []int    // order choice per hook call
+	NAlts          []int
+	HookCalls      int
 	RetractedModel map[string]bool
-	ExtraLogs [][]string // event logs of extra listeners
-	MaxCycle uint64
-	Fired    int
+	ExtraLogs      [][]string // event logs of extra listeners
+	MaxCycle       uint64
+	Fired          int
 }
 
 // ---------- options ----------
 
 type RunOpts struct {
-	MaxCycle  uint64
-	Choices   []int // order choices per hook call; default 0 afterwards
-	ReturnErr bool  // ReturnErrOnFailedRuleEvaluation
-	Ctx       context.Context
+	MaxCycle       uint64
+	Choices        []int // order choices per hook call; default 0 afterwards
+	ReturnErr      bool  // ReturnErrOnFailedRuleEvaluation
+	Ctx            context.Context
 	ExtraListeners int
-	Removed   map[string]bool // rule names removed (model side)
-	NoSnapshots bool          // skip Pre snapshots / post-state comparison
-	OnEvent   func(ev string) // observer of the unified event log
-	KB        *ast.KnowledgeBase // reuse this instance instead of creating one
+	Removed        map[string]bool    // rule names removed (model side)
+	NoSnapshots    bool               // skip Pre snapshots / post-state comparison
+	OnEvent        func(ev string)    // observer of the unified event log
+	KB             *ast.KnowledgeBase // reuse this instance instead of creating one
+	DefaultChoice  int                // order choice used beyond Choices (clamped to the number of permutations)
 }
 
 type monitor struct {
-	prog  *Program
-	kb    *ast.KnowledgeBase
-	dc    ast.IDataContext
-	world *ref.World
-	tr    *Trace
-	opts  *RunOpts
-	cur   *CycleRec
-	retracted map[string]bool
-	complete  bool
-	cancel    context.CancelFunc
-	probeMark int
+	prog        *Program
+	kb          *ast.KnowledgeBase
+	dc          ast.IDataContext
+	world       *ref.World
+	tr          *Trace
+	opts        *RunOpts
+	cur         *CycleRec
+	retracted   map[string]bool
+	complete    bool
+	cancel      context.CancelFunc
+	probeMark   int
 	seenInCycle map[string]bool
-	memo *MemoSet
+	memo        *MemoSet
 }
 
 type extraListener struct{ log *[]string }
 
-func (l extraListener) BeginCycle(ctx context.Context, c uint64) { *l.log = append(*l.log, fmt.Sprintf("B%d", c)) }
+func (l extraListener) BeginCycle(ctx context.Context, c uint64) {
+	*l.log = append(*l.log, fmt.Sprintf("B%d", c))
+}
 func (l extraListener) EvaluateRuleEntry(ctx context.Context, c uint64, e *ast.RuleEntry, cand bool) {
 	*l.log = append(*l.log, fmt.Sprintf("V%d:%s:%v", c, e.RuleName, cand))
 }
@@ -437,7 +441,10 @@ func RunOn(prog *Program, kb *ast.KnowledgeBase, w *ref.World, opts RunOpts, tr 
 	setChooser(kb.RuleEntries, func(keys []string) []int {
 		k := len(keys)
 		ps := Perms(k)
-		ch := 0
+		ch := opts.DefaultChoice
+		if ch >= len(ps) {
+			ch = len(ps) - 1
+		}
 		if hook < len(opts.Choices) {
 			ch = opts.Choices[hook]
 			if ch < 0 || ch >= len(ps) {
@@ -613,4 +620,96 @@ func RunPlain(b *Built, w *ref.World, opts RunOpts) (err error, final string, pa
 		err = eng.Execute(dc, kb)
 	}()
 	return err, Live(w, dc).Dump(), panicked
+}
+
+// FetchResult is the outcome of one FetchMatchingRules call.
+type FetchResult struct {
+	Names  []string
+	Sals   []int
+	Err    error
+	Panic  interface{}
+	Choice int
+	NAlt   int
+}
+
+// Fetch calls FetchMatchingRules on kb with the rule order given by choice.
+func Fetch(kb *ast.KnowledgeBase, w *ref.World, returnErr bool, choice int) *FetchResult {
+	res := &FetchResult{}
+	dc, err := NewDataContext(w)
+	if err != nil {
+		res.Err = err
+		return res
+	}
+	eng := &engine.GruleEngine{MaxCycle: 10, ReturnErrOnFailedRuleEvaluation: returnErr}
+	setChooser(kb.RuleEntries, func(keys []string) []int {
+		ps := Perms(len(keys))
+		res.NAlt = len(ps)
+		if choice >= len(ps) {
+			panic("hx.Fetch: order choice out of range")
+		}
+		res.Choice = choice
+		return ps[choice]
+	})
+	defer setChooser(kb.RuleEntries, nil)
+	func() {
+		defer func() {
+			if r := recover(); r != nil {
+				res.Panic = r
+			}
+		}()
+		var rs []*ast.RuleEntry
+		rs, res.Err = eng.FetchMatchingRules(dc, kb)
+		for _, r := range rs {
+			res.Names = append(res.Names, r.RuleName)
+			res.Sals = append(res.Sals, r.Salience)
+		}
+	}()
+	return res
+}
+
+// PollCtx is a context whose Err() counts polls and flips to Cause at poll FlipAt (1-based).
+// FlipAt == 0: never flips by itself (use Cancel()).
+type PollCtx struct {
+	FlipAt  int
+	Cause   error
+	Polls   int
+	flipped bool
+	done    chan struct{}
+	OnFlip  func()
+}
+
+func NewPollCtx(flipAt int, cause error) *PollCtx {
+	if cause == nil {
+		cause = context.Canceled
+	}
+	return &PollCtx{FlipAt: flipAt, Cause: cause, done: make(chan struct{})}
+}
+
+func (c *PollCtx) Deadline() (time.Time, bool)       { return time.Time{}, false }
+func (c *PollCtx) Done() <-chan struct{}             { return c.done }
+func (c *PollCtx) Value(key interface{}) interface{} { return nil }
+func (c *PollCtx) Flipped() bool                     { return c.flipped }
+
+// Cancel flips the context now.
+func (c *PollCtx) Cancel() {
+	if !c.flipped {
+		c.flipped = true
+		close(c.done)
+		if c.OnFlip != nil {
+			c.OnFlip()
+		}
+	}
+}
+
+func (c *PollCtx) Err() error {
+	if !c.flipped {
+		c.Polls++
+		if c.FlipAt > 0 && c.Polls >= c.FlipAt {
+			c.Cancel()
+		}
+	}
+	if c.flipped {
+		return c.Cause
+	}
+	return nil
 }
